@@ -234,7 +234,7 @@ theorem chunkVals_zero_deltas (d : DType) (hW : 1 ≤ d.uBits) (fl : Flags) (hk 
 /-- C1: the run-length field never exceeds 48 bits -/
 theorem varint_bits_le_48 (j x : Nat) (hj : j ≤ 24) : (encVarint 24 j x).length ≤ 48 := by
   unfold encVarint
-  have := encVarintHigh_length_le (24 - j) (x / 2 ^ j)
+  have := encVarintHigh_length_le_feat (24 - j) (x / 2 ^ j)
   simp only [List.length_append, natBits_length]
   omega
 
